@@ -181,20 +181,29 @@ pub fn run(ctx: &mut Ctx) {
                 }
             }
         }
-        // 4. salted assertions
+        // 4. salted assertions (in a third of the cases the very same assertion is already present
+        //    unsalted: the salted add must still add a new, salted element)
         let p = format!("pred-{}", case);
         let o = dcbor::ByteString::from(rng.bytes(size.min(4000)));
         let plain = Envelope::new_assertion(p.clone(), o.clone());
         let plain_n = env_bytes(&plain).len();
+        let plain_already_present = case % 3 == 1;
+        let base4 = if plain_already_present {
+            ctx.count("salted_add_onto_existing_plain");
+            base.add_assertion_envelope(plain.clone()).unwrap()
+        } else {
+            base.clone()
+        };
+        let before4 = tree_of(&base4);
         let mut digests: HashSet<D32> = HashSet::new();
         let reps = 8;
         for k in 0..reps {
             ctx.eval();
             ctx.count("add_assertion_salted");
             let r = trap::guard(|| match k % 3 {
-                0 => base.add_assertion_salted(p.clone(), o.clone(), true),
-                1 => base.add_assertion_envelope_salted(plain.clone(), true).unwrap(),
-                _ => base.add_assertions_salted(&[plain.clone()], true),
+                0 => base4.add_assertion_salted(p.clone(), o.clone(), true),
+                1 => base4.add_assertion_envelope_salted(plain.clone(), true).unwrap(),
+                _ => base4.add_assertions_salted(&[plain.clone()], true),
             });
             let s = match r {
                 Ok(s) => s,
@@ -203,15 +212,20 @@ pub fn run(ctx: &mut Ctx) {
                     continue;
                 }
             };
-            if let Some(d) = preserved(&before, &tree_of(&s), 1) {
+            if let Some(d) = preserved(&before4, &tree_of(&s), 1) {
                 ctx.violation("add_assertion_salted/content", &d, replay());
             }
             let found = s.assertions_with_predicate(p.clone());
-            if found.len() != 1 {
-                ctx.violation("add_assertion_salted/not-found-by-predicate", &format!("{} assertions found by the predicate", found.len()), replay());
+            let want_found = if plain_already_present { 2 } else { 1 };
+            if found.len() != want_found {
+                ctx.violation("add_assertion_salted/not-found-by-predicate", &format!("{} assertions found by the predicate, expected {}", found.len(), want_found), replay());
                 continue;
             }
-            let a = &found[0];
+            // the salted element is the one that is not the plain assertion itself
+            let Some(a) = found.iter().find(|x| d32(x) != d32(&plain)) else {
+                ctx.violation("add_assertion_salted/no-salted-element", "no salted element found by the predicate", replay());
+                continue;
+            };
             if d32(&a.subject()) != d32(&plain) {
                 ctx.violation("add_assertion_salted/subject", "the salted element's subject is not the plain assertion", replay());
             }
